@@ -20,6 +20,9 @@ pub fn payload(id: LogId, class: u8) -> String {
                 4 => 70_000,
                 // 5: one write request above 1 MiB
                 5 => (1 << 20) + 1,
+                // 6, 7: MiB-scale entries (torn-tail and batch-size limits)
+                6 => 12 << 20,
+                7 => 17 << 20,
                 _ => 300,
             };
             let unit = format!("<{}:{}>", id.0, id.1);
